@@ -9,6 +9,11 @@ valid : QNodes on default.qubit (numpy seed / jax PRNGKey) and default.mixed wit
         canonical results are returned for the validity oracle.
 stat  : real samples as outcome histograms + exact reference probabilities computed here from the
         analytic state vector with an independent marginalisation loop.
+shots : Shots(spec) for every operand and their sum; iteration, total, shot_vector, copies, bins are reported.
+valid cases may carry "batch" = {"wire", "xs"}: RY(xs) on that wire ahead of the gates, QNode called once with the whole
+        parameter batch; the result is split per batch entry and returned with the exact reference of the scalar circuit.
+det / valid cases may carry "svspec" (ints and [shots, copies] pairs): that specification is handed to Shots /
+        set_shots as written, while "sv" holds its documented expansion computed by the harness.
 """
 import json
 import sys
@@ -96,6 +101,24 @@ def build_mp(m):
     return qp.counts(ob, all_outcomes=m["all"])
 
 
+def spec_arg(spec):
+    return tuple(tuple(e) if isinstance(e, list) else e for e in spec) if isinstance(spec, list) else spec
+
+
+def describe_shots(sh):
+    return {"iter": [int(s) for s in sh], "total": int(sh.total_shots),
+            "vector": [[int(sc.shots), int(sc.copies)] for sc in sh.shot_vector], "copies": int(sh.num_copies),
+            "bins": [[int(a), int(b)] for a, b in sh.bins()], "part": bool(sh.has_partitioned_shots)}
+
+
+def run_shots(c):
+    objs = [Shots(spec_arg(op)) for op in c["ops"]]
+    tot = objs[0]
+    for s in objs[1:]:
+        tot = tot + s
+    return {"each": [describe_shots(s) for s in objs], "sum": describe_shots(tot)}
+
+
 def ints(x):
     arr = np.asarray(x, dtype=np.float64)
     r = np.rint(arr)
@@ -160,6 +183,8 @@ def run_det(c):
         else:
             sv = c["sv"]
             shots = Shots(tuple(sv)) if len(sv) > 1 else Shots(sv[0])
+            if "svspec" in c:       # specification as written by the user: ints and (shots, copies) pairs
+                shots = Shots(spec_arg(c["svspec"]))
             mps = [build_mp(m) for m in c["mps"]]
             res = S.measure_with_samples(mps, st, shots, rng=kw.get("rng"), prng_key=kw.get("prng_key"))
             part = bool(shots.has_partitioned_shots)
@@ -271,27 +296,9 @@ def canon_valid(m, x):
     return {"shape": list(a.shape), "data": a.reshape(-1).tolist()}
 
 
-def run_valid(c):
+def valid_info(c, gates):
     n = c["n"]
-    dev, interface = make_device(c["dev"], n, c["seed"])
-    sv = c["sv"]
-    shots = tuple(sv) if len(sv) > 1 else sv[0]
-
-    def circ():
-        apply_circuit(c["gates"])
-        return tuple(build_vmp(m) for m in c["mps"])
-    qn = qp.set_shots(qp.QNode(circ, dev, interface=interface), shots)
-    res = qn()
-    part = len(sv) > 1
-    rows = [r for r in res] if part else [res]
-    if part and len(rows) != len(sv):
-        return {"struct": f"outer length {len(rows)} for {len(sv)} bins"}
-    out_bins = []
-    for r in rows:
-        if not isinstance(r, (tuple, list)) or len(r) != len(c["mps"]):
-            return {"struct": "bad result nesting"}
-        out_bins.append([canon_valid(m, x) for m, x in zip(c["mps"], r)])
-    psi = exact_state(n, c["gates"])
+    psi = exact_state(n, gates)
     pfull = (psi.real ** 2 + psi.imag ** 2)
     info = []
     for m in c["mps"]:
@@ -302,7 +309,45 @@ def run_valid(c):
         else:
             ws = m["ws"] or list(range(n))
             info.append({"p": own_marginal(pfull, n, ws).tolist(), "m": len(ws)})
-    return {"bins": out_bins, "info": info}
+    return info
+
+
+def run_valid(c):
+    n = c["n"]
+    dev, interface = make_device(c["dev"], n, c["seed"])
+    sv = c["sv"]
+    shots = tuple(sv) if len(sv) > 1 else sv[0]
+    if "svspec" in c:
+        shots = spec_arg(c["svspec"])
+    batch = c.get("batch")
+
+    def circ(*xs):
+        if batch:
+            qp.RY(xs[0], wires=batch["wire"])
+        apply_circuit(c["gates"])
+        return tuple(build_vmp(m) for m in c["mps"])
+    qn = qp.set_shots(qp.QNode(circ, dev, interface=interface), shots)
+    if batch:
+        xs = np.array(batch["xs"], dtype=np.float64)
+        res = qn(jaxmod().numpy.asarray(xs) if interface == "jax" else xs)
+    else:
+        res = qn()
+    part = len(sv) > 1
+    rows = [r for r in res] if part else [res]
+    if part and len(rows) != len(sv):
+        return {"struct": f"outer length {len(rows)} for {len(sv)} bins"}
+    if any(not isinstance(r, (tuple, list)) or len(r) != len(c["mps"]) for r in rows):
+        return {"struct": "bad result nesting"}
+    if not batch:
+        return {"bins": [[canon_valid(m, x) for m, x in zip(c["mps"], r)] for r in rows], "info": valid_info(c, c["gates"])}
+    nb = len(batch["xs"])
+    for r in rows:
+        for x in r:
+            if len(x) != nb:
+                return {"struct": f"leading (broadcast) length {len(x)} for {nb} parameters"}
+    return {"batches": [{"bins": [[canon_valid(m, x[b]) for m, x in zip(c["mps"], r)] for r in rows],
+                         "info": valid_info(c, [["RY", batch["xs"][b], batch["wire"]]] + c["gates"])}
+                        for b in range(nb)]}
 
 
 def run_stat(c):
@@ -355,7 +400,8 @@ def main():
     payload = json.load(sys.stdin)
     out = {"det": [run_det(c) for c in payload.get("det", [])],
            "valid": [guarded(run_valid, c) for c in payload.get("valid", [])],
-           "stat": [guarded(run_stat, c) for c in payload.get("stat", [])]}
+           "stat": [guarded(run_stat, c) for c in payload.get("stat", [])],
+           "shots": [guarded(run_shots, c) for c in payload.get("shots", [])]}
     print(json.dumps(out))
 
 
